@@ -4,7 +4,6 @@ import json
 reg = json.load(open("/verif/obligations.json"))
 props = {json.loads(l)["id"]: json.loads(l) for l in open("/verif/properties.jsonl")}
 NA = {
-    "C02": "contract-based verification cannot decide it: what a reader sees depends on which pages later writers free and reuse, on the reader registry (BTreeMap behind a Mutex, out of CBMC's reach - probed) and on their interleaving; the one reachable necessary condition (freed-page horizon cut-off) is claimed under C06-K1",
     "C03": "quantified over thread schedules: Kani has no thread support and Verus would need redb rewritten over its permission types (a model, not the code); the one sequential fact within reach (transaction ids strictly increase) is C01-K6",
     "C16": "quantified over thread schedules (see C03)",
     "C19": "quantifies over what another program (redb 3.0.0) does with our files; running it is differential testing, a different technique family; the shared v3 format obligations are claimed under C10",
